@@ -46,7 +46,8 @@ def gen_lock_seq(rng, n):
         elif r < 0.48: ops.append('UL')
         elif r < 0.60: ops.append('Q ' + v())
         elif r < 0.72: ops.append('U ' + v())
-        elif r < 0.82: ops.append('ME %d' % rng.randrange(2))
+        elif r < 0.80: ops.append('ME %d' % rng.randrange(2))
+        elif r < 0.86: ops.append('RS')
         else: ops.append('PR ' + repr(round(rng.uniform(0, 3), 3)))
     return ops
 
@@ -59,7 +60,7 @@ def run(ctx):
     exe, drv = b; rng = ctx.rng
     # ---------------- (1) systems with prescribed motion
     nseed = 15 if ctx.tier == 'quick' else 150
-    cases = [(rng.randrange(1, 10**6), k, c) for k in range(8) for c in (0, 1) for _ in range(nseed)]
+    cases = [(rng.randrange(1, 10**6), k, c) for k in range(10) for c in (0, 1) for _ in range(nseed if k < 8 else max(nseed // 2, 5))]
     rc, out, err = sh([exe], input=''.join('SYS %d %d %d\n' % x for x in cases), timeout=3000)
     pm = [l.split() for l in out.split('\n') if l.startswith('PM ')]; thr = [l for l in out.split('\n') if l.startswith('PMTHROW')]
     if rc != 0 or len(pm) + len(thr) != len(cases): ctx.broken.append(('correspondence:harness', 'harness rc=%d, %d of %d systems reported; %s' % (rc, len(pm), len(cases), err[-300:])))
@@ -86,10 +87,51 @@ def run(ctx):
             if free > 1e-12: prob = prob or 'after unlock / disable the accelerations differ from the unprescribed ones: %g' % free
             if prob and first is None: first = ('SYS %d %d %s' % (seed, kind, ' '.join(p[3:4])), prob, ' '.join(p))
     for t in thr[:1]: ctx.broken.append(('correspondence:throw', t))
+    # ---------------- (1b) multipliers, motion forces, motion power, power balance on the same systems
+    import math
+    mp = [l for l in out.split('\n') if l.startswith('MP ')]
+    mpfirst = None; mpworst = {'power_vs_model': 0.0, 'power_vs_minus_dot': 0.0, 'power_balance': 0.0}; nmp = 0; nslots = {}
+    minp = []
+    parsed = []
+    for l in mp:
+        parts = [x.split() for x in l.split('|')]
+        seed, kind = int(parts[0][1]), int(parts[0][2]); mobs = parts[1]; tau = parts[2]; fm = parts[3]; uu = parts[4]
+        pmot, papp, pcons, dke = [float.fromhex(x) for x in parts[5]]
+        parsed.append((seed, kind, mobs, tau, fm, uu, pmot, papp, pcons, dke))
+        minp.append('MP %d %s %d %s %d %s' % (len(mobs) // 2, ' '.join(mobs), len(tau), ' '.join(tau), len(uu), ' '.join(uu)))
+    if len(mp) != len(pm): ctx.broken.append(('correspondence:harness-mp', 'MP lines %d, PM lines %d' % (len(mp), len(pm))))
+    r5, o5, e5 = sh([drv], input='\n'.join(minp) + '\n', timeout=600)
+    ml = [l for l in o5.split('\n') if l.startswith('M ')]
+    if len(ml) != len(parsed): ctx.broken.append(('correspondence:driver-mp', 'model answered %d of %d: %s' % (len(ml), len(parsed), e5[-200:])))
+    else:
+        for (seed, kind, mobs, tau, fm, uu, pmot, papp, pcons, dke), l in zip(parsed, ml):
+            a_, b_, c_ = l[2:].split('|'); slots = [int(x) for x in a_.split()]; mfm = [float.fromhex(x) for x in b_.split()]; mpow = float.fromhex(c_.strip())
+            gfm = [float.fromhex(x) for x in fm]; gu = [float.fromhex(x) for x in uu]; gtau = [float.fromhex(x) for x in tau]
+            nslots[len(slots)] = nslots.get(len(slots), 0) + 1; prob = None; nmp += len(gfm) + 3
+            # findMotionForces = the multipliers unpacked into the model's slots, zeros elsewhere (exact: the values are copies)
+            if len(gtau) != len(slots): prob = 'getMotionMultipliers has %d entries, the prescribed mobilities are %s' % (len(gtau), slots)
+            elif gfm != mfm: prob = 'findMotionForces %s is not getMotionMultipliers %s unpacked into the u slots %s (model: %s)' % (gfm, gtau, slots, mfm)
+            # calcMotionPower vs the model's accumulation, and vs the documented formula -dot(motion forces, u)
+            terms = [a * b for a, b in zip(gfm, gu)]; sc = math.fsum(abs(t) for t in terms) + 1e-300
+            d1 = abs(pmot - mpow) / sc; d2 = abs(pmot + math.fsum(terms)) / sc
+            mpworst['power_vs_model'] = max(mpworst['power_vs_model'], d1); mpworst['power_vs_minus_dot'] = max(mpworst['power_vs_minus_dot'], d2)
+            if d1 > 1e-13: prob = prob or 'calcMotionPower = %r, model (power -= tau[i]*u[slot i]) %r' % (pmot, mpow)
+            if d2 > 1e-13: prob = prob or 'calcMotionPower = %r but -dot(findMotionForces, u) = %r (documented: power = -dot(tau, u))' % (pmot, -math.fsum(terms))
+            # power balance (implementation-side only): motion + applied + constraint power = d/dt KE (central difference, h = 1e-4)
+            bal = abs(pmot + papp + pcons - dke) / max(1.0, abs(pmot), abs(papp), abs(pcons), abs(dke)); mpworst['power_balance'] = max(mpworst['power_balance'], bal)
+            if bal > 1e-4: prob = prob or 'power balance: motion %r + applied %r + constraint %r = %r but d/dt KE = %r' % (pmot, papp, pcons, pmot + papp + pcons, dke)
+            if prob and mpfirst is None: mpfirst = ('SYS %d %d %d' % (seed, kind, [c for c in cases if c[0] == seed and c[1] == kind][0][2]), prob)
+    neval += nmp
+    ctx.extra['multipliers'] = {'systems': len(mp), 'worst_relative': mpworst, 'number_of_prescribed_slots_histogram': nslots}
+    if mpfirst:
+        ctx.broken.append(('correspondence:motion-multipliers', '%s: %s' % mpfirst))
+        ctx.report('impl:multipliers:' + mpfirst[0].replace(' ', '_'), 'implementation violates the C10 predicate (motion multipliers / forces / power): ' + mpfirst[1],
+                   {'failing_input': mpfirst[0], 'replay_cmd': 'echo "%s" | build/C10/C10_motion' % mpfirst[0]})
     # ---------------- (2) lock state machine
     nseq = 300 if ctx.tier == 'quick' else 5000
     seqs = [('s%d' % i, gen_lock_seq(rng, rng.randrange(3, 26))) for i in range(nseq)]
-    txt = ''.join('LOCK %s\n%s\nEND\n' % (i, '\n'.join(o)) for i, o in seqs)
+    hdr = {i: (rng.choice([-1, -1, 0, 1, 2, 2]), repr(round(rng.uniform(-1, 1), 3))) for i, _ in seqs}     # lockByDefault level, default angle
+    txt = ''.join('LOCK %s %d %s\n%s\nEND\n' % (i, hdr[i][0], hdr[i][1], '\n'.join(o)) for i, o in seqs)
     r1, a, e1_ = sh([exe], input=txt, timeout=3000); r2, m, e2_ = sh([drv], input=txt, timeout=600)
     la = [l for l in a.split('\n') if l[:2] in ('L ', 'LO', 'EN', 'TH', 'BA')]; lm = [l for l in m.split('\n') if l[:2] in ('L ', 'LO', 'EN')]
     nlock = 0; lockfirst = None; levels = {}
@@ -109,7 +151,6 @@ def run(ctx):
             if not same and lockfirst is None: lockfirst = (cur, k, x, y)
     # ---------------- (3) Motion on multi-coordinate mobilizers (Ball, Free, Gimbal, Bushing, Ellipsoid): implementation-side predicate
     # (the outcome is known by construction: the Motion's value and its time derivatives) + the extracted qdot = N(q) u model
-    import math
     nmb = 4 if ctx.tier == 'quick' else 40
     mbc = []
     for mt in range(5):
@@ -179,8 +220,8 @@ def run(ctx):
                    'replay_cmd': 'echo "%s" | build/C10/C10_motion' % first[0]})
     if lockfirst:
         sid, k, x, y = lockfirst; ops = dict(seqs)[sid]
-        # shrink: the shortest prefix showing the difference is the first k operations
-        small = ops[:k]
+        # shrink: the shortest prefix showing the difference is the first k-1 operations (line 1 is the status of the default State)
+        small = ['LOCK x %d %s (lockByDefault level, default angle)' % hdr[sid]] + ops[:max(k - 1, 0)]
         ctx.broken.append(('correspondence:lock-machine', 'sequence %s after operation %d: implementation "%s" model "%s"; operations: %s' % (sid, k, x, y, ' ; '.join(small))))
         ctx.report('impl:lock:' + sid, 'lock state machine: implementation "%s" vs model "%s"' % (x, y), {'failing_input': ' ; '.join(small)})
     ctx.assumptions += [
